@@ -83,8 +83,8 @@ Section LinExt.
     rewrite (Hc y (or_introl eq_refl) Hlt). reflexivity.
   Qed.
 
-  Lemma run_isort : forall l s,
-    (forall l1 x l2, l = l1 ++ x :: l2 -> forall y, In y l2 -> y < x -> commutes x y) ->
+  Lemma run_isort : forall (l : list nat) s,
+    (forall (l1 : list nat) x (l2 : list nat), l = (l1 ++ x :: l2)%list -> forall y, In y l2 -> y < x -> commutes x y) ->
     run (isort Nat.ltb l) s = run l s.
   Proof.
     induction l as [|x r IH]; intros s Hc; simpl; [reflexivity|].
